@@ -68,7 +68,8 @@ type c31Pushed struct {
 	head   bool
 	tail   bool
 	opIdx  int
-	epoch  int
+	epoch  int // number of times the buffer had drained completely before this Push
+	aepoch int // number of times the buffer or the active window had drained before this Push
 	pushNo int
 	chunk  string // hex of what Unmarshal returns for it
 }
@@ -79,6 +80,7 @@ type c31Emitted struct {
 	first  uint16
 	last   uint16
 	epoch  int
+	aepoch int
 	popIdx int
 }
 
@@ -133,7 +135,7 @@ func c31RunInner(in c31In) (V, Verdict) {
 	pushedByKey := map[string]c31Pushed{}
 	var emitted []c31Emitted
 	seenG := map[int]int{} // g -> index in emitted
-	epoch, pushes, firstG := 0, 0, -1
+	epoch, aepoch, pushes, firstG := 0, 0, 0, -1
 	drained, flushed := false, false // last op was a Pop returning nil; a Flush came after the last Push
 	obs := make(VL, 0, len(in.Ops))
 	durLim := int64(8388608) * 1000000000 / int64(in.Rate)
@@ -151,6 +153,9 @@ func c31RunInner(in c31In) (V, Verdict) {
 			ids[p] = pushes
 			if len(live) == 0 && pushes > 0 {
 				epoch++ // every packet pushed so far has left the buffer
+				aepoch++
+			} else if b := sb.VerifState(); b.ActiveHead == b.ActiveTail && b.PreparedTail != 0 {
+				aepoch++ // a forced build consumed the whole active window: the next buildSample re-anchors it on filled
 			}
 			if firstG < 0 {
 				firstG = op.G
@@ -158,7 +163,7 @@ func c31RunInner(in c31In) (V, Verdict) {
 			key := fmt.Sprintf("%d/%d", op.G, op.Copy)
 			pushedByKey[key] = c31Pushed{g: op.G, cp: op.Copy, seq: op.Seq, ts: op.TS,
 				head: dep.IsPartitionHead(payload), tail: dep.IsPartitionTail(op.Marker, payload),
-				opIdx: k, epoch: epoch, pushNo: pushes, chunk: c31Chunk(op.Payload)}
+				opIdx: k, epoch: epoch, aepoch: aepoch, pushNo: pushes, chunk: c31Chunk(op.Payload)}
 			pushes++
 			live[op.Seq] = p
 			sb.Push(p)
@@ -328,7 +333,7 @@ func c31CheckSample(s *media.Sample, k int, pushed map[string]c31Pushed, emitted
 		failNew("empty-sample", fmt.Sprintf("op %d: sample with no payload", k))
 		return
 	}
-	e := c31Emitted{first: run[0].seq, last: run[len(run)-1].seq, epoch: run[0].epoch, popIdx: k, keys: keys}
+	e := c31Emitted{first: run[0].seq, last: run[len(run)-1].seq, epoch: run[0].epoch, aepoch: run[0].aepoch, popIdx: k, keys: keys}
 	for i, p := range run {
 		e.gs = append(e.gs, p.g)
 		if i > 0 && p.seq != run[i-1].seq+1 {
@@ -368,16 +373,16 @@ func c31CheckSample(s *media.Sample, k int, pushed map[string]c31Pushed, emitted
 	if prevIdx >= 0 {
 		a := (*emitted)[prevIdx]
 		// compared by stream index: a duplicate may have replaced a consumed packet in its slot meanwhile
-		suffixOfPrev = a.epoch == e.epoch && len(e.gs) < len(a.gs) &&
+		suffixOfPrev = a.aepoch == e.aepoch && len(e.gs) < len(a.gs) &&
 			fmt.Sprint(a.gs[len(a.gs)-len(e.gs):]) == fmt.Sprint(e.gs)
 	}
 	for _, g := range e.gs {
 		if j, dup := seenG[g]; dup {
 			a := (*emitted)[j]
 			switch {
-			case a.epoch != e.epoch:
+			case a.aepoch != e.aepoch:
 				failKnown("stale-packet-accepted-after-buffer-drained",
-					fmt.Sprintf("op %d: stream packet %d emitted again (samples %v and %v); its copy was pushed after the buffer had drained completely", k, g, a.gs, e.gs))
+					fmt.Sprintf("op %d: stream packet %d emitted again (samples %v and %v); its copy was pushed after the buffer or the active window had drained", k, g, a.gs, e.gs))
 			case suffixOfPrev:
 				failKnown("consumed-packets-rebuilt-after-active-drained",
 					fmt.Sprintf("op %d: sample %v is a suffix of the previous sample %v: packets already consumed were built again", k, e.gs, (*emitted)[prevIdx].gs))
@@ -391,9 +396,9 @@ func c31CheckSample(s *media.Sample, k int, pushed map[string]c31Pushed, emitted
 		a := (*emitted)[prevIdx]
 		if int16(e.first-a.last) <= 0 {
 			switch {
-			case a.epoch != e.epoch:
+			case a.aepoch != e.aepoch:
 				failKnown("stale-packet-accepted-after-buffer-drained",
-					fmt.Sprintf("op %d: sample seq %d..%d emitted after sample seq %d..%d; it was pushed after the buffer had drained completely", k, e.first, e.last, a.first, a.last))
+					fmt.Sprintf("op %d: sample seq %d..%d emitted after sample seq %d..%d; it was pushed after the buffer or the active window had drained", k, e.first, e.last, a.first, a.last))
 			case suffixOfPrev:
 				failKnown("consumed-packets-rebuilt-after-active-drained",
 					fmt.Sprintf("op %d: sample %v is a suffix of the previous sample %v", k, e.gs, a.gs))
